@@ -42,7 +42,7 @@ CHECKS.update({
                     'device, source output with budget, buffer head whose delay elapsed) is offered to its downstream list on a deep '
                     'copy of the whole system using the real give_part; an acceptance is a lost wake-up. An exception or an event '
                     'budget overrun in a well-posed run is reported as non-termination.'},
-    'C05': {'harnesses': ['harness.line_jobs'], 
+    'C05': {'harnesses': ['harness.line_jobs'], 'lemmas': 'c05',
             'text': _LINE + 'after every event level() equals the stored leaf parts and stays within capacity, departures are a prefix of '
                     'the previous content (FIFO) and happen no earlier than arrival + minimum delay (exact on the integer grid); the '
                     'IEEE-754 delay guard is a separate bit-precise lemma (cvc5, QF_BVFP).'},
